@@ -332,6 +332,13 @@ func (u *Unit) mergeStates(ins []edgeIn) *State {
 		if res.alloc.S != e.st.alloc.S {
 			res.alloc = u.def(ite(e.cond, e.st.alloc, res.alloc))
 		}
+		for k, v := range e.st.callRes {
+			if rv, ok := res.callRes[k]; ok {
+				res.callRes[k] = u.mergeValSafe(e.cond, v, rv)
+			} else {
+				res.callRes[k] = v
+			}
+		}
 		for g, t := range e.st.ghostCalled {
 			rt, ok := res.ghostCalled[g]
 			if !ok {
@@ -394,6 +401,19 @@ func (u *Unit) mergeVal(c Term, a, b Val) Val {
 		r.Fn, r.Bindings = a.Fn, a.Bindings
 	}
 	return r
+}
+
+// mergeValSafe merges bookkeeping values; anything that cannot be merged keeps the later value.
+func (u *Unit) mergeValSafe(c Term, a, b Val) (r Val) {
+	defer func() {
+		if x := recover(); x != nil {
+			r = b
+		}
+	}()
+	if a.Loc != nil || b.Loc != nil || len(a.Tup) != len(b.Tup) {
+		return b
+	}
+	return u.mergeVal(c, a, b)
 }
 
 func sameLoc(a, b *Loc) bool {
@@ -998,6 +1018,9 @@ func (u *Unit) termOf(v Val) Term {
 }
 
 func (u *Unit) loadGlobal(st *State, g *ssa.Global) Val {
+	if v, ok := u.globalConst(st, g); ok {
+		return v
+	}
 	elem := g.Type().(*types.Pointer).Elem()
 	name := "G:" + g.Pkg.Pkg.Path() + "." + g.Name()
 	sort := u.sortOf(elem)
